@@ -209,10 +209,11 @@ pub fn behaviour() -> Behaviour {
         cfg,
         adjust,
         render,
-        quick: 4000,
+        quick: 7000,
         thorough: 20000,
         batch: 25,
         assumptions: &[],
         miri_units: 0,
+        extra: None,
     }
 }
